@@ -76,7 +76,8 @@ def get_chain_name(chain):
 
 @contextlib.contextmanager
 def temp_var(vm):
-    params = vm.get_all_dic()
+    # save the variables' own values (get_all_dic would return masked ones)
+    params = {k: vm.get(k, val_in_fit=False) for k in vm.variables}
     try:
         yield vm
     finally:
